@@ -507,12 +507,12 @@ Definition conv_math_rule (r : MathDefs.rule) : vrule :=
 (** the names for which model->hasUnits(name) or isStandardUnitName(name) holds *)
 Definition units_names (m : model) : list string := map u_name (m_units m) ++ map fst standard_units_list.
 
-(** validateMath on one document: C01's transcription MathDefs.val_math_env_gen2, whose first switch [q] (= fx_math_qual)
-    is the repair fixes/C04-mathml-qualifier-children.diff (validateMathMLElementsChildrenAndSiblings descends into degree /
-    logbase / bvar once the qualifier's own tests pass); C01's own switch for its proposed arity rules of min / max / rem
-    (MathDefs.arity_fix_committed) is followed as it stands in MathDefs. *)
+(** validateMath on one document: C01's transcription MathDefs.val_math_env_gen3, whose switch [q] (= fx_math_qual) is
+    the repair fixes/C04-mathml-qualifier-children.diff (validateMathMLElementsChildrenAndSiblings descends into degree /
+    logbase / bvar once the qualifier's own tests pass); C01's own switches (arity rules of min / max / rem, comments
+    skipped before the name of a ci, second operand of diff) are followed as they stand in MathDefs. *)
 Definition val_math_env_q (q : bool) (vars units : list string) (root : xml) : list MathDefs.rule :=
-  val_math_env_gen2 q arity_fix_committed vars units root.
+  val_math_env_gen3 ci_comment_fix_committed diff_ci_fix_committed q arity_fix_committed vars units root.
 
 (** validateMath: variableNames = the component's variable names without repetitions (membership is all that is
     read); a root that is not <math> raises MATH_ELEMENT and RETURNS: the roots after it are not looked at *)
